@@ -32,6 +32,7 @@ func main() {
 	user := flag.String("user", "", "user name")
 	pwfile := flag.String("pwfile", "", "file holding the password bytes")
 	admin := flag.Bool("admin", false, "admin flag")
+	warm := flag.String("warm", "", "configuration of another store the process has used before (add, update, set-admin, remove there first)")
 	flag.Parse()
 	var pw string
 	if *pwfile != "" {
@@ -46,6 +47,18 @@ func main() {
 	if err != nil {
 		fmt.Fprintln(os.Stderr, "HARNESS ERROR:", err)
 		os.Exit(2)
+	}
+	if *warm != "" { // a long-running process that has worked on another directory before (configuration reload, several stores)
+		w, err := store.NewDirFromConfig(*warm)
+		if err != nil {
+			fmt.Fprintln(os.Stderr, "HARNESS ERROR:", err)
+			os.Exit(2)
+		}
+		w.AddUser("warmup", "warm password", false)
+		w.UpdateUser("warmup", "warm password 2")
+		w.SetAdmin("warmup", true)
+		w.Authenticate("warmup", "warm password 2")
+		w.RemoveUser("warmup")
 	}
 	var r result
 	os.Stat("/VERIF-MARK-BEGIN")
